@@ -1,6 +1,7 @@
 (* C13 — kernel tuple ownership follows the endpoints (endpoint pool model). *)
 From Coq Require Import List Arith Bool Lia.
 From Dae Require Import C13_Spec C13_Model C13_EpModel C13_Proofs C13_EpProofs.
+From Dae.gen Require Import C13_Consts.
 Import ListNotations.
 
 Definition enc (n : nat) : option tentry := match n with 0 => None | _ => Some (mkT n false) end.
@@ -271,7 +272,7 @@ Qed.
 
 Lemma TI_pstep s o : TI s -> TI (fst (pstep s o)).
 Proof.
-  intros H. destruct o as [k d g out|h out|h t|d| | |dt]; cbn [pstep].
+  intros H. destruct o as [k d g out|h out|h t|d| | |dt|h]; cbn [pstep].
   - now apply TI_goc.
   - destruct (nth_error (p_handles s) h) as [e|]; [|exact H].
     destruct (nth_error (p_eps s) e) as [u|] eqn:Hn; [|exact H].
@@ -331,6 +332,11 @@ Proof.
     destruct (opt_is (p_pool s0 (u_key u)) e && _); auto.
     apply TI_close. eapply TI_same; [| |exact H0]; reflexivity.
   - eapply TI_same; [| |exact H]; reflexivity.
+  - cbn [fst]. unfold ep_remove.
+    destruct (nth_error (p_handles s) h) as [e|]; [|exact H].
+    destruct (nth_error (p_eps s) e) as [u|]; [|exact H].
+    destruct C13_Consts.remove_checks_identity; [destruct (opt_is _ e)|]; apply TI_close; auto;
+      (eapply TI_same; [| |exact H]; reflexivity).
 Qed.
 
 Lemma TI_p0 : TI p0.
